@@ -351,7 +351,8 @@ def run_job(job, spec_blocks, keep=False, scratch_root=None):
                 if "std::bad_alloc" in out or "Out of memory" in out or rc in (-6, -9, 134, 137):
                     res.undecided = "OUT-OF-MEMORY (limit %d GB)" % job.mem_gb
                 else:
-                    res.undecided = "TOOL: cbmc gave no result (rc=%s): %s" % (rc, out[-1500:])
+                    errs = re.findall(r'"messageText": "([^"]*)",\s*"messageType": "ERROR"', out)
+                    res.undecided = "TOOL: cbmc gave no result (rc=%s): %s" % (rc, "; ".join(errs)[:400] or out[-600:].replace("\n", " "))
                 return res
             for pat in SUSPICIOUS:
                 for m in re.finditer(pat + r".*", msgs):
@@ -376,12 +377,14 @@ def run_job(job, spec_blocks, keep=False, scratch_root=None):
                 return res
             unw = [o for o in res.obligations if o["status"] == "FAILURE" and re.search(r"\.unwind\.\d+$", o["name"])]
             if unw:
-                # an unwinding bound was too small for the current code: nothing is decided
-                res.undecided = "UNWIND-BOUND: %s (%s)" % (unw[0]["name"], unw[0]["text"][:80])
-                for o in res.obligations:
-                    if not o["vacuity"] and o["status"] == "FAILURE":
-                        o["status"] = "UNDECIDED"
-                return res
+                # An unwinding bound was too small for the current code.  A FAILURE of another
+                # obligation is still a genuine counterexample (failures are sound under any
+                # bound); only the passes are not to be believed.
+                for o in unw:
+                    o["status"] = "UNDECIDED"
+                if not [o for o in res.obligations if o["status"] == "FAILURE" and not o["vacuity"]]:
+                    res.undecided = "UNWIND-BOUND: %s (%s)" % (unw[0]["name"], unw[0]["text"][:80])
+                    return res
             vac = [o for o in res.obligations if o["vacuity"]]
             res.vacuity_ok = bool(vac) and all(o["status"] == "FAILURE" for o in vac)
             if not vac:
